@@ -46,6 +46,10 @@ func cacheSpecs() []Spec {
 		{Kind: KExpr, Func: "Cache.processItems", Match: "i.Cost == 0 && c.cost != nil && i.flag != itemDelete", Lean: "useCostFn", Out: o},
 		{Kind: KExpr, Func: "Cache.processItems", Match: "!c.ignoreInternalCost", Lean: "addInternalCost", Out: o},
 		{Kind: KExpr, Func: "Metrics.add", Match: "(hash % 25) * 10", Lean: "metricStripe", Out: o},
+		// statement sequences that are modelled by hand and observable only through rare behaviour
+		{Kind: KPin, Func: "defaultPolicy.Clear", Nth: -1, Match: "p.Lock(); p.admit.clear(); p.evict.clear(); p.Unlock()", Lean: "pinPolicyClear", Out: o},
+		{Kind: KPin, Func: "tinyLFU.clear", Nth: -1, Match: "p.incrs = 0; p.door.Clear(); p.freq.Clear()", Lean: "pinTinyClear", Out: o},
+		{Kind: KPin, Func: "sampledLFU.clear", Nth: -1, Match: "p.used = 0; p.keyCosts = make(map[uint64]int64)", Lean: "pinEvictClear", Out: o},
 		// atomic sections the model treats as one step
 		{Kind: KLockShape, Func: "lockedMap.Update", Match: "m.Lock", Lean: "atomicUpdate", Out: o},
 		{Kind: KLockShape, Func: "lockedMap.Del", Match: "m.Lock", Lean: "atomicDel", Out: o},
